@@ -57,6 +57,16 @@ impl TryFrom<CompressionWithLevel> for Compressor {
     type Error = Error;
 
     fn try_from(value: CompressionWithLevel) -> Result<Self, Self::Error> {
+        // The encoder constructors panic on levels outside of their documented range
+        // (xz: 0..=9, bzip2: 1..=9); gzip levels are documented as 0..=9.
+        let level_in_range = match value {
+            CompressionWithLevel::None | CompressionWithLevel::Zstd(_) => true,
+            CompressionWithLevel::Gzip(level) | CompressionWithLevel::Xz(level) => level <= 9,
+            CompressionWithLevel::Bzip2(level) => 1 <= level && level <= 9,
+        };
+        if !level_in_range {
+            return Err(Error::UnsupportedCompressorType(value.to_string()));
+        }
         match value {
             CompressionWithLevel::None => Ok(Compressor::None(Vec::new())),
             #[cfg(feature = "gzip-compression")]
